@@ -121,6 +121,9 @@ def gen_plan(seed, tier="quick"):
         # an earlier extraction in the same process on another probe geometry with the same channel count
         "prelude": r.choice([None, None] + [f for f in ("NP1", "NP21", "NP24") if f != fixture]),
         # history: an earlier extraction on this .cbin died while decompressing into the shared scratch directory
+        # default preprocessing (butterworth + phase shift): waveforms are then filter outputs, so equality with the
+        # source is not demanded; independence from the worker count and the schedule still is (same chunk size)
+        "preprocess": "default" if r.random() < 0.2 else "none",
         "spike_dtype": r.choice(["int64", "int64", "uint64", "int32", "uint32"]),     # spike sorters save unsigned times
         "prelude_same_outdir": r.random() < 0.4,
         "explicit_h": r.random() < 0.3,
@@ -192,7 +195,8 @@ def _extract(plan, src, outdir, chunk, n_jobs, schedule, scratch):
         cl = sp[:, 1] if (sdt.kind == "i" or sp[:, 1].min(initial=0) >= 0) else sp[:, 1] - sp[:, 1].min()
         wfx.extract_wfs_cbin(src, outdir, sp[:, 0].astype(sdt), sp[:, 1], sp[:, 2].astype(np.int32 if sdt.itemsize == 4 else np.int64),
                              max_wf=plan["max_wf"], chunksize_samples=chunk,
-                             n_jobs=n_jobs, preprocess_steps=[], seed=plan["wf_seed"], scratch_dir=scratch, **kw)
+                             n_jobs=n_jobs, preprocess_steps=(None if plan.get("preprocess") == "default" else []),
+                             seed=plan["wf_seed"], scratch_dir=scratch, **kw)
     except Exception as e:
         import traceback
         err = (e, traceback.format_exc())
@@ -262,6 +266,7 @@ def _run(plan, base):
         probe("first_spike_of_recording_valid")
     stats["config"][f"n_jobs={plan['n_jobs']}"] = 1
     stats["config"][plan["form"]] = 1
+    stats["config"]["preprocess_" + plan.get("preprocess", "none")] = 1
     sigbase = f"n{plan['n_jobs']}"
     try:
         if not valid.any():
@@ -272,7 +277,8 @@ def _run(plan, base):
             _interrupted_first(plan, src, base, probe, stats)
         if plan.get("prelude"):
             _prelude(plan, base, probe, stats, sigbase)
-        for tag, chunk, n_jobs, schedule in (("ref", plan["chunk_ref"], 1, None),
+        pre = plan.get("preprocess") == "default"
+        for tag, chunk, n_jobs, schedule in (("ref", plan["chunk"] if pre else plan["chunk_ref"], 1, None),
                                              ("sim", plan["chunk"], plan["n_jobs"], {"seed": plan["sched_seed"], "p_switch": plan["p_switch"],
                                                                                    "victim": plan["victim"], "order": plan["order"], "trace": plan.get("trace")})):
             od = base / f"out_{tag}"
@@ -419,7 +425,11 @@ def _check_files(plan, tag, out, V, neigh, sp, valid, ns, nap, od, res, chunk, n
         if not (0 <= pk < nap) or not (s - TROUGH >= 0 and s - TROUGH + LENGTH <= ns):
             raise Violation("C13.W1", f"{sigbase}:row-out-of-range", f"row {r_}: sample {s}, peak {pk} {ctx}")
         exp = Vn[neigh[pk]][:, s - TROUGH: s - TROUGH + LENGTH]
-        if not np.array_equal(traces[r_], exp.astype(np.float32), equal_nan=True):
+        if plan.get("preprocess") == "default":
+            # filter outputs: only the NaN pattern (channels outside the probe) is checked against the source
+            if not np.array_equal(np.isnan(traces[r_]), np.isnan(exp)):
+                raise Violation("C13.W1", f"{sigbase}:nan-pattern", f"row {r_}: NaN padding does not match the neighbourhood of peak {pk} {ctx}")
+        elif not np.array_equal(traces[r_], exp.astype(np.float32), equal_nan=True):
             where = "chunk-boundary" if (s % chunk) in (0, 1, chunk - 1) else "interior"
             off = None
             for d in range(-LENGTH, LENGTH + 1):   # diagnose a time shift
@@ -514,7 +524,7 @@ def _check_files(plan, tag, out, V, neigh, sp, valid, ns, nap, od, res, chunk, n
 
 
 def shrink_candidates(plan):
-    for key, val in (("form", "bin"), ("order", None), ("victim", None), ("p_switch", 0.0), ("prelude", None), ("interrupted_first", None)):
+    for key, val in (("form", "bin"), ("preprocess", "none"), ("order", None), ("victim", None), ("p_switch", 0.0), ("prelude", None), ("interrupted_first", None)):
         if plan.get(key) != val:
             c = dict(plan)
             c[key] = val
